@@ -37,6 +37,7 @@ inductive Eff
   | setComment (t : Nat) (c : Nat)   -- upsert into _fs_tables_ext
   | setLen (t : Nat) (n : Nat)       -- upsert into _fs_columns_ext
   | mkView (v : Nat)
+  | setViewCmt (v c : Nat)           -- `_fs_tables_ext` upsert for a view created with COMMENT = '…'
   | rows (t : Nat) (op : RowOp)
   | junkComment                      -- before repair 0e75b9f: comment 'None' recorded for MERGE's temporary MERGE_CANDIDATES table
 deriving DecidableEq, Repr
@@ -56,6 +57,7 @@ inductive Stmt
   | commentOn (t : Nat) (c : Nat)
   | createSchema (s : Nat)
   | createView (v : Nat)
+  | createViewC (v c : Nat)                    -- CREATE VIEW … COMMENT = '…' AS …: DDL + side-table upsert
   | createDatabase (d : Nat)
   | dml (t : Nat) (op : RowOp)                 -- INSERT / UPDATE / DELETE (op ∈ ins, upd, del)
   | insertMany (t : Nat) (rows : List (Nat × Nat))   -- cursor.executemany(INSERT …, rows): one INSERT per row, each
@@ -89,6 +91,7 @@ def calls : Stmt → List Call
   | .commentOn t c => [.q, .w (.setComment t c)]
   | .createSchema s => [.w (.mkSchema s), .q]
   | .createView v => [.w (.mkView v), .q]
+  | .createViewC v c => [.w (.mkView v), .w (.setViewCmt v c), .q]
   | .createDatabase d => [.w (.attach d), .w (.info d), .q]
   | .dml t op => [.w (.rows t op), .q]
   | .insertMany t rows => rows.flatMap fun r => [.w (.rows t (.ins r.1 r.2)), .q]
@@ -189,6 +192,8 @@ def applyEff (st : Dump × Side) : Eff → Dump × Side
   | .setComment t c => (st.1, { st.2 with cmts := st.2.cmts ++ [(t, c)] })
   | .setLen t n => (st.1, { st.2 with lens := st.2.lens ++ [(t, n)] })
   | .mkView v => ({ st.1 with views := st.1.views ++ [v] }, st.2)
+  -- a commented view is shown in the dump as the number v + 1000 * (c + 1)
+  | .setViewCmt v c => ({ st.1 with views := st.1.views.map fun x => if x == v then v + 1000 * (c + 1) else x }, st.2)
   | .rows t op => ({ st.1 with tables := updTbl st.1.tables t fun x => { x with rows := applyRow x.rows op } }, st.2)
   | .junkComment => st
 
@@ -213,6 +218,7 @@ def tornKey (s : Stmt) (j : Nat) : String :=
   if done.isEmpty || done.length == (effs s).length then "-" else
   match s with
   | .createTable _ _ _ => "C18/torn-table-metadata"
+  | .createViewC _ _ => "C18/torn-table-metadata"      -- the same two-call shape: view DDL, then its comment upsert
   | .merge _ _ => "C18/torn-merge"
   | .createDatabase _ => "-"     -- healed by the next connect (idempotent bootstrap), see `C18_create_database_heals`
   | .connect _ _ _ => "-"
